@@ -182,7 +182,7 @@ def _execute(prog, plan=None, rnd=None, switch_prob=0.0, files=None, pct=None):
             for call in prog.get('pre', ()):
                 # single-threaded set-up actions before the scheduled phase (e.g. the client has already closed)
                 getattr(ws, call[0])(*call[1:])
-            s = sched.Scheduler(plan=plan, rnd=rnd, switch_prob=switch_prob, files=files, pct=pct)
+            s = sched.Scheduler(plan=plan, rnd=rnd, switch_prob=switch_prob, files=files, pct=pct, opcode_funcs=prog.get('opcodes'))
             w.yield_hook = lambda tag: (out.__dict__.__setitem__('mid', out.__dict__.get('mid', 0) + 1), s.yield_point(tag))
             w.thread_name = lambda: s.current.name if s.current else 'main'
             records = []
